@@ -681,7 +681,10 @@ impl<S: EntryIoStream, E: Entry> Receiver<S, E> {
         let span = tracing::span!(tracing::Level::TRACE, "metrics background queue", sink=?self.inner.name);
         let _enter = span.enter();
         let mut waker_tracker = WakerTracker::new(flush_queue_receiver);
-        let inner = self.inner.clone();
+        // Read the capacity up front instead of keeping a second `Arc<Inner>` alive for the whole loop: an extra strong
+        // reference would make the `Arc::get_mut` check below fail forever, so a forgotten join handle would leave
+        // this thread (and the stream) running after the last `BackgroundQueue` was dropped.
+        let queue_capacity = self.inner.queue.capacity();
 
         loop {
             let next_flush = Instant::now() + self.flush_interval;
@@ -696,7 +699,7 @@ impl<S: EntryIoStream, E: Entry> Receiver<S, E> {
                     verif::pack((status == DrainResult::HitDeadline) as usize, entry_count),
                 );
                 waker_tracker.handle_waiting_wakers(
-                    || inner.queue.capacity(),
+                    || queue_capacity,
                     || self.flush_stream(),
                     status,
                     entry_count,
